@@ -45,11 +45,14 @@ def find_parser(ctx):
     return adt, variant, fns, sites
 
 
-def fromstr_events(o):
+def fromstr_events(o, units=()):
+    """the integer parses of this path: FromStr calls, and calls of a proven hand-written decimal parser (rules/decimal.py)"""
     out = []
     for ev in o.events:
         if ev["k"] == "call" and "std::str::FromStr::from_str" in ev["names"]:
             res = ev["callee"].get("res_path") or ""
+            out.append(ev)
+        elif ev["k"] == "call" and ev.get("opaque") and ev["callee"].get("res_path") in units:
             out.append(ev)
     return out
 
@@ -78,17 +81,20 @@ def hyphen_term(o, base):
     return None
 
 
-def classify_iteration(ctx, o, Lterm):
+def classify_iteration(ctx, o, Lterm, units=()):
     """-> dict describing what this path did in one loop iteration, or None if it never parsed a number"""
-    evs = fromstr_events(o)
+    evs = fromstr_events(o, units)
     nums = {}
     info = {"fromstr": evs, "nums": nums, "unrecognised": []}
     for ev in evs:
         seq = seq_of_arg(ev)
         res = ev.get("result")
-        valterm = ("payload", res, "Ok", "0")
+        good = units[ev["callee"].get("res_path")] if ev["callee"].get("res_path") in units else "Ok"
+        valterm = ("payload", res, good, "0")
         TY.setdefault(valterm, (64, False))
         ok = o.cons.variant_of(res)
+        if ok is not None and good != "Ok":
+            ok = "Ok" if ok == good else "Err"
         if not (isinstance(seq, tuple) and seq[0] == "slice"):
             info["unrecognised"].append((ev, "integer parsed from a value that is not a sub-slice of the range-spec"))
             continue
@@ -200,7 +206,11 @@ def _analyse(ctx):
         from ..check import FailClosed
         raise FailClosed("construction sites of %s::%s are in %d functions (%r); expected one parser" % (adt, variant, len(fns), fns))
     name = fns[0]
-    outs = ctx.px(name, inline=lambda c, d: True, key="inline-all")
+    from . import decimal
+    units = decimal.units(ctx, name, "%s.NUM" % ctx.prop)
+    if units:
+        ctx.info("range parser: %s proven to be 1*DIGIT parser(s); their calls are the integer parses" % sorted(units))
+    outs = ctx.px(name, inline=(lambda c, d, u=frozenset(units): c.get("res_path") not in u), key=("inline-all", tuple(sorted(units))))
     L = ("param", 2)
     TY.setdefault(L, (64, False))
     # the length parameter: the u64 parameter of the parser
@@ -217,7 +227,7 @@ def _analyse(ctx):
             continue
         if not Zone(_cons_all(o)).feasible():
             continue  # the path's own comparisons contradict each other (e.g. len <= h although h < len): not a real row
-        info = classify_iteration(ctx, o, L)
+        info = classify_iteration(ctx, o, L, units)
         pushes = push_events(o)
         row = {"o": o, "info": info, "pushes": pushes, "kind": o.kind, "value": o.value, "L": L, "fn": name}
         nums = info["nums"]
@@ -231,7 +241,7 @@ def _analyse(ctx):
         row["form"] = form
         row["all_ok"] = bool(nums) and all(v["ok"] == "Ok" for v in nums.values())
         rows.append(row)
-    return {"fn": name, "adt": adt, "variant": variant, "rows": rows, "outs": outs, "L": L, "sites": sites}
+    return {"fn": name, "adt": adt, "variant": variant, "rows": rows, "outs": outs, "L": L, "sites": sites, "units": units}
 
 
 def value_variant(v):
